@@ -51,6 +51,8 @@ pub assume_specification<T: PartialEq>[ <[T]>::contains ](s: &[T], x: &T) -> (r:
 pub assume_specification<T, F: FnOnce(T) -> bool>[ Option::<T>::is_some_and ](o: Option<T>, f: F) -> (r: bool)
     requires o is Some ==> call_requires(f, (o.unwrap(),)),
     ensures o is None ==> !r, o is Some ==> call_ensures(f, (o.unwrap(),), r);
+pub assume_specification<T: Clone>[ <[T]>::to_vec ](s: &[T]) -> (r: Vec<T>)
+    ensures r@.len() == s@.len(), forall|i: int| 0 <= i < s@.len() ==> cloned::<T>(#[trigger] s@[i], r@[i]);
 pub assume_specification[ isize::unsigned_abs ](x: isize) -> (r: usize)
     ensures r as int == (if x >= 0 { x as int } else { -(x as int) });
 
